@@ -269,6 +269,7 @@ func runWire(cfg *runCfg) error {
 	kr := newKeyring(cfg.seed)
 	var cases, dcases, bcases []string
 	slot := &interfaces.ConsensusRawMessage{}
+	var prevRaw *interfaces.ConsensusRawMessage
 	for i := 0; i < n; i++ {
 		m := &wMsg{}
 		switch r.Intn(5) {
@@ -340,7 +341,14 @@ func runWire(cfg *runCfg) error {
 		}
 		// parsing depends on the bytes alone: a receive slot that held another message before reads this one the same way
 		slot.Content, slot.Block = cp(raw.Content), nil
-		if again, p2 := goDecodeRaw(slot); p2 || again == nil || again.coq() != dec.coq() {
+		again, p2 := goDecodeRaw(slot)
+		if !p2 && again != nil && again.coq() == dec.coq() && prevRaw != nil {
+			// ... and so does the raw message the previous message was converted into (a struct that was CREATED for another message)
+			prevRaw.Content, prevRaw.Block = cp(raw.Content), nil
+			again, p2 = goDecodeRaw(prevRaw)
+		}
+		prevRaw = buildRaw(m)
+		if p2 || again == nil || again.coq() != dec.coq() {
 			rep.finding("C20", "parse-depends-on-how-the-bytes-were-produced", fmt.Sprintf("%s: the same bytes read through a raw-message struct that carried another message before give %s, read through a fresh one %s", m.Kind, clip([]string{coqOpt(again)}), clip([]string{dec.coq()})), m.coq())
 		}
 		rep.count("reread-through-a-reused-slot")
